@@ -35,6 +35,7 @@ type Driver struct {
 	funcsDone []funcInfo
 	known     []KnownFinding
 	knownHit  map[string]bool
+	retried   int
 }
 
 type funcInfo struct {
@@ -457,6 +458,40 @@ func (d *Driver) solveAll() {
 	}
 	close(ch)
 	wg.Wait()
+	// second pass: whatever did not discharge is retried with little parallel load and a
+	// four times longer timeout (solver time under 16-way load is noisy; an alarm must not
+	// depend on it)
+	var again []*Query
+	for _, q := range d.queries {
+		if !q.IsCover && q.Result != "unsat" {
+			again = append(again, q)
+		}
+	}
+	if len(again) == 0 {
+		return
+	}
+	d.retried = len(again)
+	ch2 := make(chan *Query)
+	var wg2 sync.WaitGroup
+	for i := 0; i < 4; i++ {
+		wg2.Add(1)
+		go func() {
+			defer wg2.Done()
+			for q := range ch2 {
+				first := q.Result
+				q.Result, q.Solver, q.Model = "", "", ""
+				solve(q, d.Work, d.Timeout*4, true)
+				if q.Result == "unsat" {
+					q.Solver += " (retry after " + first + ")"
+				}
+			}
+		}()
+	}
+	for _, q := range again {
+		ch2 <- q
+	}
+	close(ch2)
+	wg2.Wait()
 }
 
 // callsTagged: does the body of key call (by name) a function whose contract has a
